@@ -1,7 +1,7 @@
 CONSTANTS
   N = 5
   MaxTok = 2
-  MaxM = 7
+  MaxM = 6
   Z = 2
   MaxSize = 6
   MaxEvents = 0
